@@ -13,7 +13,7 @@ segment" means.
 * polygon / multipolygon: the winding loop is pinned down operator by operator (`C02_edge_rule`, its geometric reading
   `C02_edge_rule_geometric`), shown antisymmetric under reversal of an edge and of a ring, **zero outside the bounding box** of a
   closed ring and **constant along every horizontal or vertical segment, hence on every box, that contains no point of the
-  ring** (`C02_winding_far`, `C02_winding_moves`, `C02_winding_constant_off_ring`: the formalised Appendix B of DESIGN.md, stated
+  ring** (`C02_winding_far`, `C02_winding_moves`, `C02_winding_constant_off_ring`, and jumping by exactly the edge's direction when one edge is crossed, `C02_winding_jump`: the formalised Appendix B of DESIGN.md, stated
   at rational points and tied to the coded loop by `C02_winding_rational`), and the decision logic "inside a shell and in none
   of its holes" is derived from the per-ring facts (`C02_polygon_logic`, `C02_multipolygon_logic`).  What is **not** proved is the
   topological fact that for a *simple* ring every point off the ring can be joined to infinity crossing the ring transversally
@@ -95,6 +95,16 @@ theorem C02_winding_constant_off_ring (r : List Pt) (hcl : Closed r) (b : Box) (
 /-- far away, at rational points too -/
 theorem C02_winding_far_rational (q : QPt) (r : List Pt) (hcl : Closed r) (bb : Box) (hbb : bboxOf r = some bb)
     (hout : ¬ InBoxQ bb q) : windQ q r = 0 := windQ_far q r hcl bb hbb hout
+
+/-- **jump**: crossing exactly one edge transversally (at an interior point of the edge, no other edge touching the path) changes
+the winding number by the direction of that edge: from left to right it drops by `+1` for an edge going up, `-1` for one going
+down.  Together with `C02_winding_far` (zero far away) and `C02_winding_constant_off_ring` this is the complete local
+description of the winding number on the complement of the ring. -/
+theorem C02_winding_jump (l1 l2 : List Pt) (a b : Pt) (x x' h : ℚ) (hxx : x ≤ x')
+    (hspan : ((a.2 : ℚ) < h ∧ h < b.2) ∨ ((b.2 : ℚ) < h ∧ h < a.2)) (hl : x < xAt a b h) (hr : xAt a b h < x')
+    (hc1 : ∀ s ∈ segs (l1 ++ [a]), RowClear s.1 s.2 x x' h) (hc2 : ∀ s ∈ segs (b :: l2), RowClear s.1 s.2 x x' h) :
+    windQ (x, h) (l1 ++ a :: b :: l2) - windQ (x', h) (l1 ++ a :: b :: l2) = gQ h b - gQ h a :=
+  windQ_jump l1 l2 a b x x' h hxx hspan hl hr hc1 hc2
 
 /-! ### decision logic for polygons with holes and for multipolygons -/
 
